@@ -243,9 +243,10 @@ def run(v, tier, seed):
         ev = [l.rstrip("\n") for l in open(dir_path)]
         recv = [k for k, l in enumerate(ev) if '"e":"Recv"' in l and '"sid":"none"' in l]
         k = recv[len(recv) // 2]; n = 0
-        for tag, fn in (("lost", lambda a: a.pop(k)), ("extra", lambda a: a.insert(k, a[k])),
-                        ("identity", lambda a: a.__setitem__(k, a[k].replace('"sid":"none"', '"sid":"2"'))),
-                        ("receiver", lambda a: a.__setitem__(k, json.dumps(dict(json.loads(a[k]), r=("2" if json.loads(a[k])["r"] != "2" else "1")))))):
+        variants = (("lost", lambda a: a.pop(k)), ("extra", lambda a: a.insert(k, a[k])),
+                    ("identity", lambda a: a.__setitem__(k, a[k].replace('"sid":"none"', '"sid":"2"'))),
+                    ("receiver", lambda a: a.__setitem__(k, json.dumps(dict(json.loads(a[k]), r=("2" if json.loads(a[k])["r"] != "2" else "1"))))))
+        for tag, fn in (variants[seed % 2::2] if quick else variants):
             a = list(ev); fn(a); p = W("corrupt_route_%s.ndjson" % tag); made.append(p)
             with open(p, "w") as f: f.write("\n".join(a) + "\n")
             ok, maxline, nl, _, _ = route_trace(p, "corruption guard")
@@ -257,26 +258,26 @@ def run(v, tier, seed):
     NSH = 8
     if quick:
         uni = "core"; uni_shards = list(range(8)); uni_nsh = 8
-        mc_jobs = [("core", (seed + k) % 8, 8) for k in range(2)]
-        n_wide = int(24000 * scale); wide_files = 4
-        n_rand, n_steps, rand_files = int(400 * scale), 40, 2
-        n_small, small_files = int(2500 * scale), 2
+        mc_jobs = [("core", seed % 8, 8)]
+        n_wide = int(16000 * scale); wide_files = 2
+        n_rand, n_steps, rand_files = int(300 * scale), 40, 2
+        n_small, small_files = int(2000 * scale), 1
         tguards = [(DEV + ["F2"], "TraversalExact"), (DEV + ["F24"], "RouteOnce"), ([], "RouteOnce")]
         rguards = [(DEV + ["F23"], "RouteExact", 1, 3, "KM_full")]
-        rmc = [("ops3", 1, 3, "KM_full", ["none", "1", "nonstr"], 3), ("fifo", 3, 1, "KM_fifo", ["none", "1"], 1)]
+        rmc = [("ops3", 1, 3, "KM_full", ["none", "1", "nonstr"], 3), ("fifo", 2, 1, "KM_fifo", ["none", "1"], 1)]
         gens = [("a", 1, 2, "KM_full", "DM_one", "SM_small", ["none", "1"])]
     else:
         uni = "full"; uni_nsh = 64; uni_shards = list(range(int(64 * min(1.0, scale)) or 1))
         mc_jobs = [("core", k, 8) for k in range(8)] + [("tri", k, 64) for k in range(int(64 * min(1.0, scale * 0.5)) or 1)]
         n_wide = int(400000 * scale); wide_files = 16
         n_rand, n_steps, rand_files = int(20000 * scale), 60, 8
-        n_small, small_files = 0, 8          # 0 = the whole small space
+        n_small, small_files = (0 if scale >= 1 else int(42750 * scale)), 8          # 0 = the whole small space
         tguards = [(DEV + ["F2"], "TraversalExact"), (DEV + ["F24"], "RouteOnce"), ([], "RouteOnce"), (DEV + ["F24"], "StopOnce"), (DEV + ["NoAlreadyDid"], "TraversalExact"),
                    (DEV + ["FastPathFirstEntry"], "TraversalExact")]
         rguards = [(DEV + ["F23"], "RouteExact", 1, 3, "KM_full"), (DEV + ["F24"], "RouteExact", 1, 3, "KM_full"), (DEV + ["F2"], "RouteExact", 1, 3, "KM_full"), ([], "RouteExact", 1, 3, "KM_full"),
                    (DEV + ["ReflectInverted"], "RouteExact", 1, 3, "KM_full"), (DEV + ["KeepForged"], "SenderTrue", 1, 3, "KM_full"), (DEV + ["HeadQueue"], "PairFIFO", 2, 1, "KM_fifo"),
                    (DEV + ["FirstKeyFilter"], "RouteExact", 1, 3, "KM_full"), (DEV + ["KeepFirstFilter"], "RouteExact", 1, 3, "KM_full")]
-        rmc = [("ops4", 1, 4, "KM_full", ["none", "1", "nonstr"], 6), ("fifo", 3, 2, "KM_fifo", ["none", "1"], 2)]
+        rmc = [("ops4", 1, 4, "KM_full", ["none", "1", "nonstr"], 4) if scale >= 0.5 else ("ops3", 1, 3, "KM_full", ["none", "1", "nonstr"], 3), ("fifo", 3, 2, "KM_fifo", ["none", "1"], 2)]
         gens = [("a", 1, 2, "KM_full", "DM_one", "SM_small", ["none", "1"]), ("b", 2, 1, "KM_fifo", "DM_one", "SM_small", ["none"])]
 
     # ------------------------------------------------------------------ the real code, recorded (seconds)
